@@ -436,6 +436,13 @@ class AlgebraMachine(RuleBasedStateMachine):
     def silence(self, k, eps, f):
         self.it.apply(["silence", k, eps if k or eps >= 0 else 0.0, f])
 
+    @rule(secs=st.integers(1, 3), k=st.integers(0, 40), eps=st.sampled_from([0.5, 0.5, 0.5, 0.0, 0.25]), f=FMT)
+    def silence_over_a_second(self, secs, k, eps, f):
+        # a second or more, ending on (or near) half a sample: still round-half-even of d*rate
+        sr = self.it.fmts[f][0]
+        if sr <= 16001:
+            self.it.apply(["silence", secs * sr + k, eps, f])
+
     @rule(big=rarely(12), k=st.sampled_from([262144, 524287, 524288, 524289, 700000, 1048576, 1048577]))
     def big_silence(self, big, k):
         if big:
@@ -479,6 +486,12 @@ def explicit_cases():
         {"cfg": cfg, "ops": [["new", 7, 0, 1, None], ["new", 3, 0, 2, 1.5], ["new", 2, 0, 3, None], ["join", 1, [0, 2, 1], "gen"],
                              ["join", 0, [1, 2], "iter"], ["join", 2, [0, 1, 2], "map"], ["join", 2, [0, 1], "tuple"],
                              ["new", 4, 3, 1, None], ["join", 0, [1, 6], "gen"]]},
+        {"cfg": {"fmt": [8000, 2, 1]}, "ops": [["silence", 8004, 0.5, 0], ["silence", 8005, 0.5, 0], ["silence", 16003, 0.5, 0], ["silence", 24006, 0.5, 0],
+                                               ["silence", 8000, 0.5, 0], ["silence", 8001, 0.5, 0]]},
+        {"cfg": {"fmt": [10, 2, 2]}, "ops": [["silence", 10 + k, 0.5, 0] for k in range(0, 24)]},
+        # regions that carry times, joined in an order that is not chronological: the order given is the order joined
+        {"cfg": cfg, "ops": [["new", 3, 0, 1, 5.0], ["new", 2, 0, 2, 1.0], ["new", 4, 0, 3, 3.0], ["new", 1, 0, 4, 0.5],
+                             ["join", 3, [0, 1, 2]], ["join", 0, [2, 1], "gen"], ["join", 1, [0, 2, 3, 1], "tuple"], ["sum", [0, 1, 2]], ["add", 0, 1]]},
         {"div_big": [2000, 747, [16000, 2, 1], 1]}, {"div_big": [2000, 1000, [16000, 2, 2], 2]},
         {"div_big": [2000, 1500, [8000, 1, 1], 3]}, {"div_big": [1200, 3000, [10, 4, 3], 4]},
         {"div_big": [5000, 5000, [10, 2, 1], 5]}, {"div_big": [160000, 1000, [16000, 2, 1], 6]},
